@@ -166,6 +166,14 @@ pub fn run(ctx: &mut Ctx, o: &AttackOpts) {
             let fmts: Vec<Fmt> = if o.both_formats && msg::jwt_three_parts(&m2.jwt) { vec![fmt, fmt.other()] } else if msg::jwt_three_parts(&m2.jwt) { vec![fmt] } else { vec![Fmt::Compact] };
             for f in fmts {
                 let raw = msg::render(m2, f, [JsonVariant::KbNull, JsonVariant::KbAbsent, JsonVariant::KbEmpty, JsonVariant::Extra][(pair % 4) as usize]);
+                if o.both_formats && pair % 5 == 0 && msg::jwt_three_parts(&m2.jwt) {
+                    // C10 for holders: built from either serialization of the same (tampered) message, the constructor decides
+                    // alike and an empty selection yields the same presentation
+                    ctx.hpair = pair;
+                    if let Some(mut h) = holder_new(ctx, "PX", &raw, f).ok() {
+                        let _ = present(ctx, "PX", &mut h, f, &serde_json::Map::new(), &KbArgs::default(), pair);
+                    }
+                }
                 verify(
                     ctx,
                     &VerifyArgs {
@@ -358,7 +366,8 @@ pub fn run(ctx: &mut Ctx, o: &AttackOpts) {
                         m2.jwt = jwt;
                         m2.kb = None;
                         for f in [fmt, fmt.other()] {
-                            let raw = msg::render(&m2, f, JsonVariant::KbAbsent);
+                            // (JSON: with an unprotected `header` member that names ANOTHER kid - it is not signed and must not matter)
+                            let raw = msg::render(&m2, f, if matches!(f, Fmt::Json) { JsonVariant::Extra } else { JsonVariant::KbAbsent });
                             verify(ctx, &VerifyArgs { raw: &raw, fmt: f, res: &bykid, aud: None, nonce: None, pair: 0, expect: NONE.to_string() });
                         }
                     }
